@@ -550,15 +550,22 @@ class TransactionEncode:
                 yield encoder(["V", item[1], item[2]])
 
             elif item[0] == "T4":
-                rows_T = collections.defaultdict(list)
+                try:
+                    rows_T = collections.defaultdict(list)
 
-                keys = sorted(set().union(*[r.keys() for r in item[2]]),key=str)
+                    keys = sorted(set().union(*[r.keys() for r in item[2]]),key=str)
 
-                for row in item[2]:
-                    for key in keys:
-                        rows_T[str(key)].append(row.get(key,None))
+                    for row in item[2]:
+                        for key in keys:
+                            rows_T[str(key)].append(row.get(key,None))
 
-                yield encoder(["I", item[1], { "_packed": rows_T }])
+                    record = encoder(["I", item[1], { "_packed": rows_T }])
+                except Exception as ex:
+                    #rows that can't be written (e.g., not mappings or holding a value json has no form
+                    #for) only cost the triple they belong to, like any other failure of an evaluation
+                    CobaContext.logger.log(ex)
+                else:
+                    yield record
 
 class TransactionResult:
     def filter(self, transactions:Iterable[Any]) -> 'Result':
